@@ -52,6 +52,11 @@ func genConnConc(r *Rng, tier string, p *Plan) *Plan {
 		}
 		return []string{"SET", k, Pick(r, defaultVals)}
 	}
+	// one plan in four: every connection moves to the same database that does not exist yet, and writes there
+	fresh := ""
+	if r.Chance(0.25) {
+		fresh = Pick(r, []string{"7", "8", "11"})
+	}
 	for c := 0; c < nclients; c++ {
 		p.Knobs[fmt.Sprintf("cdb%d", c)] = int64(r.Intn(len(connDBs)))
 		for _, op := range g.SeedOps(r, r.Range(0, 2)) {
@@ -59,6 +64,15 @@ func genConnConc(r *Rng, tier string, p *Plan) *Plan {
 		}
 		for j := 0; j < per; j++ {
 			var a []string
+			if fresh != "" {
+				if j == 0 {
+					a = []string{"SELECT", fresh}
+				} else {
+					a = dataCmd()
+				}
+				p.Ops = append(p.Ops, Op{C: c, Args: a})
+				continue
+			}
 			switch x := r.Intn(100); {
 			case x < 25:
 				a = []string{"SELECT", Pick(r, append(connDBs, "7"))}
